@@ -1,6 +1,6 @@
 (* C11: accepted programs keep their static promises; rule-breaking ones are rejected (on the calculus EffVy). *)
 From Coq Require Import ZArith Bool List.
-From Verif Require Import C11.Effects C11.EffectsSound C11.EffectsReject.
+From Verif Require Import C11.Effects C11.EffectsSound C11.EffectsPure C11.EffectsReject.
 Import ListNotations.
 Open Scope Z_scope.
 
@@ -14,11 +14,33 @@ Proof. exact view_state_unchanged_lemma. Qed.
 Print Assumptions view_no_write.
 
 (* a checked @pure function additionally reads no environment, balance, msg.value or state *)
-Theorem pure_no_reads_partial : forall p, check p = true ->
+Theorem pure_no_reads : forall p, check p = true ->
   forall n f g w fr o w' fr' t, nth_error (funs p) f = Some g -> fmut g = Pure ->
     exec n p w fr (fbody g) = Some (o, w', fr', t) -> silent t.
 Proof. exact pure_silent_lemma. Qed.
-Print Assumptions pure_no_reads_partial.
+Print Assumptions pure_no_reads.
+
+(* ... hence its outcome (returned value, final frame, trace) is the same in every world: whatever the storage,
+   transient storage, immutables, environment, balances and msg.value are (external `pure` callees being functions
+   of their argument) *)
+Theorem pure_independent : forall p, check p = true ->
+  forall n f g w fr o w' fr' t, nth_error (funs p) f = Some g -> fmut g = Pure ->
+    exec n p w fr (fbody g) = Some (o, w', fr', t) ->
+    forall w2, ext_pure w2 = ext_pure w -> exec n p w2 fr (fbody g) = Some (o, w2, fr', t).
+Proof. exact pure_independent_lemma. Qed.
+Print Assumptions pure_independent.
+
+Theorem constants_immutable : forall p g k x e, check p = true -> In g (funs p) ->
+  (subs (SAssign k x e) (fbody g) \/ subs (SAug k x e) (fbody g)) -> writable g k = true.
+Proof. exact assign_targets_lemma. Qed.
+
+(* for i in range(e, bound=K): the count is evaluated once, the statement reverts unless count <= K, and the body
+   runs exactly count (<= K) times unless it returns earlier *)
+Theorem loop_bound_respected : forall p n w fr i e K b o w' fr' t,
+  exec (S n) p w fr (SFor i (RBound e K) b) = Some (o, w', fr', t) ->
+  exists v w1 t1, eval n p w fr e = Some (v, w1, t1) /\ v <= K /\
+    exists t2, loop (fun w' fr' => exec n p w' fr' b) i (Z.to_nat v) 0 w1 fr = Some (o, w', fr', t2) /\ t = t1 ++ t2.
+Proof. exact loop_bound_lemma. Qed.
 
 Theorem acyclic_call_graph : forall p, check p = true -> forall f, ~ path p f f.
 Proof. exact acyclic_lemma. Qed.
